@@ -111,7 +111,9 @@ def discharge_factory(F):
             return COBS_IDX
         if "AllocVec as Index" in fk and s.kind == "call":
             return COBS_IDX
-        if s.kind == "assert:Overflow:Add" and ("Size as Flavor" in fk or "CountWriter" in fk):
+        if s.kind == "assert:Overflow:Add" and ("Size as Flavor" in fk or "CountWriter" in fk or (s.fn.impl_trait or "") == "core::fmt::Write"
+                                                or any((fr_.impl_trait or "") == "core::fmt::Write" for fr_ in getattr(s, "stack", []) or [])):
+            # (the counting pass of collect_str: a local fmt::Write impl adding the length of each piece, whatever the type is called)
             return COUNTER
         return None
     return discharge
